@@ -128,3 +128,39 @@ Print Assumptions C14_parse_action_exact.
 Example C14_parse_action_example :
   parse_action 1 (join_commas [[32;108;111;103;32]; [115;116;111;112]; [32;32;110;111;116;105;102;121;32]]%nat) = [115;116;111;112]%nat.
 Proof. vm_compute. reflexivity. Qed.
+
+(* ---- whole descriptions (detail::parse_stt<t>) ---- *)
+From Msm Require Import Lemmas_PumlStt.
+From Coq Require Import List.
+
+(* parse_stt<t> returns parse_row of exactly the t-th transition line - a line with "->" and without "[*]" - of a
+   description, whatever lines surround it (initial and terminate lines, entry / exit / flag lines, separators, empty
+   lines), for every number of lines and every line length, with or without a final line end: no line is lost, none
+   is counted twice, none merges with a neighbour *)
+Theorem C14_parse_stt_selects_the_transition_lines : forall lines t row,
+  Forall line_ok lines -> size (join_nl lines) < npos ->
+  nth_error (filter is_transb lines) t = Some row ->
+  parse_stt t (join_nl lines) = parse_row row.
+Proof. exact parse_stt_exact. Qed.
+Print Assumptions C14_parse_stt_selects_the_transition_lines.
+
+(* together with C14_parse_row_exact: the t-th transition line of a description, written in the line grammar, comes out
+   as exactly its five fields *)
+Theorem C14_description_rows : forall lines t l,
+  Forall line_ok lines -> size (join_nl lines) < npos ->
+  nth_error (filter is_transb lines) t = Some (render l) -> wf_line l -> size (render l) < npos ->
+  parse_stt t (join_nl lines) = fields l.
+Proof.
+  intros lines t l Hok Hsz Hk Hwf Hl. rewrite (parse_stt_exact lines t (render l) Hok Hsz Hk). apply parse_row_exact; assumption.
+Qed.
+Print Assumptions C14_description_rows.
+
+(* "[*] --> A" / "A -> B : e" / "B : entry x" / "B -> [*]" / "B --> A : f / act" and a final line end: two transition
+   lines, the second one is the fifth line *)
+Example C14_parse_stt_example :
+  let lines := [[91;42;93;32;45;45;62;32;65]; [65;32;45;62;32;66;32;58;32;101]; [66;32;58;32;101;110;116;114;121;32;120];
+                [66;32;45;62;32;91;42;93]; [66;32;45;45;62;32;65;32;58;32;102;32;47;32;97;99;116]; []]%nat in
+  Forall line_ok lines /\ map is_transb lines = [false; true; false; false; true; false] /\
+  parse_stt 1 (join_nl lines) = Transition [66%nat] [65%nat] [102%nat] [] [97;99;116]%nat /\
+  parse_stt 2 (join_nl lines) = empty_transition.
+Proof. cbv zeta. split; [repeat constructor|]. vm_compute. auto. Qed.
